@@ -115,9 +115,9 @@ Definition Q0 : query := {| q_limit := QAbsent; q_cursor := QAbsent; q_core := f
                             q_assetids := []; q_semid := None |}.
 Definition mkq (l c : qint) (core : bool) (i : option name) (a : list qdec) (sid : option qdec) : query :=
   {| q_limit := l; q_cursor := c; q_core := core; q_idshort := i; q_assetids := a; q_semid := sid |}.
-Definition mkr (rule : string) (m : meth) (a : accept) (aas sm cd qt : idarg) (p : patharg) (q : query) (b : body) : request :=
+Definition mkr (rule : string) (m : meth) (a : accept) (aas sm cd qt : idarg) (p : patharg) (q : query) (b : body) (bh : bool) : request :=
   {| r_rule := rule; r_meth := m; r_accept := a; r_aas := aas; r_sm := sm; r_cd := cd; r_qt := qt;
-     r_path := p; r_query := q; r_body := b |}.
+     r_path := p; r_query := q; r_body := b; r_badhost := bh |}.
 Definition mksh (i : ident) (ids : option name) (tok : Z) (refs : list ident) : shell :=
   {| sh_id := i; sh_ids := ids; sh_tok := tok; sh_refs := refs |}.
 Definition mksm (i : ident) (ids : option name) (tok : Z) (q : list (name * Z)) (ch : children) : submodel :=
